@@ -141,6 +141,9 @@ func (m *Machine) intercept(fn *ssa.Function, args []Value) (Value, bool) {
 	case "strings.IndexRune", "strings.IndexByte":
 		m.stub(name)
 		return m.stringsIndex(args[0].(StringV), args[1].(*Term)), true
+	case "strings.ContainsAny":
+		m.stub(name)
+		return c.Bool(strings.ContainsAny(m.mustStr(args[0]), m.mustStr(args[1]))), true
 	case "strings.Contains", "strings.HasPrefix", "strings.HasSuffix", "strings.TrimSuffix", "strings.TrimPrefix", "strings.ReplaceAll", "strings.Index", "strings.Split", "strings.TrimSpace", "strings.TrimRight", "strings.TrimLeft", "strings.Join":
 		m.stub(name)
 		return m.stringsConcrete(name, args), true
